@@ -35,6 +35,13 @@ type vfHTTPCfg struct {
 	status  int
 	oneway  bool
 	payload []byte
+	// fail: how the first round trip ends instead of with a response, hdr ms after it began: "eof" /
+	// "reset" (the connection goes away before any response), "cut" (status line, headers and half of
+	// the body, then the connection goes away). hdr2 is when the headers of every later round trip
+	// arrive (-1 never, -2 the later round trips behave like the first one): the peer as seen by a
+	// transport that tries again.
+	fail string
+	hdr2 int
 }
 
 type vfHTTPBody struct {
@@ -68,7 +75,24 @@ func (b *vfHTTPBody) Read(p []byte) (int, error) {
 
 func (b *vfHTTPBody) Close() error { return nil }
 
-type vfHTTPRT struct{ cfg *vfHTTPCfg }
+type vfHTTPRT struct {
+	cfg      *vfHTTPCfg
+	attempts int
+}
+
+type vfHTTPCutBody struct {
+	half []byte
+}
+
+func (b *vfHTTPCutBody) Read(p []byte) (int, error) {
+	if len(b.half) == 0 {
+		return 0, io.ErrUnexpectedEOF
+	}
+	n := copy(p, b.half)
+	b.half = b.half[n:]
+	return n, nil
+}
+func (b *vfHTTPCutBody) Close() error { return nil }
 
 func (rt *vfHTTPRT) RoundTrip(req *http.Request) (*http.Response, error) {
 	ctx := req.Context()
@@ -76,16 +100,30 @@ func (rt *vfHTTPRT) RoundTrip(req *http.Request) (*http.Response, error) {
 		io.Copy(io.Discard, req.Body)
 		req.Body.Close()
 	}
+	rt.attempts++
+	hdr, fail := rt.cfg.hdr, rt.cfg.fail
+	if rt.attempts > 1 && rt.cfg.hdr2 != -2 {
+		hdr, fail = rt.cfg.hdr2, ""
+	}
 	switch {
-	case rt.cfg.hdr < 0:
+	case hdr < 0:
 		vsched.Recv(ctx.Done())
 		return nil, ctx.Err()
-	case rt.cfg.hdr > 0:
-		if vsched.Select(false, vsched.NewRecv(ctx.Done()), vsched.NewRecv(vtime.After(time.Duration(rt.cfg.hdr)*time.Millisecond))) == 0 {
+	case hdr > 0:
+		if vsched.Select(false, vsched.NewRecv(ctx.Done()), vsched.NewRecv(vtime.After(time.Duration(hdr)*time.Millisecond))) == 0 {
 			return nil, ctx.Err()
 		}
 	}
 	enc := []byte(base64.StdEncoding.EncodeToString(rt.cfg.payload))
+	switch fail {
+	case "eof":
+		return nil, io.EOF
+	case "reset":
+		return nil, fmt.Errorf("read tcp 10.0.0.1:1234->10.0.0.2:80: read: connection reset by peer")
+	case "cut":
+		return &http.Response{Status: strconv.Itoa(rt.cfg.status), StatusCode: rt.cfg.status, Proto: "HTTP/1.1", ProtoMajor: 1, ProtoMinor: 1,
+			Header: http.Header{}, Body: &vfHTTPCutBody{half: enc[:len(enc)/2]}, ContentLength: -1, Request: req}, nil
+	}
 	body := &vfHTTPBody{ctx: ctx}
 	switch rt.cfg.body {
 	case "full":
@@ -113,7 +151,7 @@ type vfHTTPCaller struct {
 }
 
 func vfHTTPParse(scn string) *vfHTTPCfg {
-	c := &vfHTTPCfg{n: 1, hdr: 0, body: "full", status: 200}
+	c := &vfHTTPCfg{n: 1, hdr: 0, body: "full", status: 200, hdr2: -2}
 	for _, kv := range strings.Split(scn, ",") {
 		p := strings.SplitN(kv, "=", 2)
 		if len(p) != 2 {
@@ -129,6 +167,10 @@ func vfHTTPParse(scn string) *vfHTTPCfg {
 			}
 		case "h":
 			c.hdr, _ = strconv.Atoi(p[1])
+		case "h2":
+			c.hdr2, _ = strconv.Atoi(p[1])
+		case "f":
+			c.fail = p[1]
 		case "b":
 			if strings.HasPrefix(p[1], "late") {
 				c.body = "late"
@@ -241,6 +283,21 @@ func vfHTTPMake(scn string) (func(), func(*vsched.Exec) (string, *vsched.Violati
 			T := int64(c.tmo)
 			// when the transport has everything it needs from the peer (virtual ns after the call)
 			arrival := int64(-1) // never
+			failed := cfg.fail != "" && cfg.hdr >= 0 // the first round trip ends without a response after hdr ms
+			isOK := c.outcome == "ok" || c.outcome == "nil"
+			if failed {
+				// the peer never produces a response in these scenarios' first round trip; a transport
+				// that tries again meets hdr2. Whatever it does, the caller is back by its timeout, and
+				// with anything but a timeout before it
+				if e.EarlyTimers == 0 && c.ret > T {
+					viol("C13/late-return/http", fmt.Sprintf("caller%d (timeout %s) returned %s after %dus of virtual time (the connection had failed after %d ms)", i, c.tmo, c.outcome, c.ret/1e3, cfg.hdr))
+				} else if isOK && cfg.hdr2 == -2 {
+					viol("C13/unexpected-outcome/http", fmt.Sprintf("caller%d: outcome %s although the peer never responded", i, c.outcome))
+				} else if e.EarlyTimers == 0 && c.outcome == fmt.Sprintf("terr%d", TRANSPORT_EXCEPTION_TIMED_OUT) && c.ret < T {
+					viol("C13/early-timeout", fmt.Sprintf("caller%d reported a timeout after %dus, before its timeout %s", i, c.ret/1e3, c.tmo))
+				}
+				continue
+			}
 			if cfg.hdr >= 0 {
 				switch {
 				case cfg.status == http.StatusRequestEntityTooLarge:
@@ -332,6 +389,20 @@ func init() {
 								continue
 							}
 							out = append(out, fmt.Sprintf("n=1,t=5,h=%d,b=%s,s=%d,k=%s", h, b, s, k))
+						}
+					}
+				}
+			}
+			// the connection fails under the first round trip (before a response, or inside its body);
+			// a transport that tries again finds a peer that behaves the same, is silent, or is slow
+			for _, f := range []string{"eof", "reset", "cut"} {
+				for _, h := range []int{0, 2} {
+					for _, h2 := range []int{-2, -1, 9, 2} {
+						for _, k := range kinds {
+							if k == "oneway" && (f != "eof" || (tier != "thorough" && h2 != -1)) {
+								continue
+							}
+							out = append(out, fmt.Sprintf("n=1,t=5,h=%d,f=%s,h2=%d,k=%s", h, f, h2, k))
 						}
 					}
 				}
